@@ -95,6 +95,8 @@ Mutations(w) ==
       [w EXCEPT !.nodes = Append(w.nodes, [city |-> "e", type |-> "ROADM"])],
       [w EXCEPT !.eqpt = Append(w.eqpt, Row("x", "a", AmpA, AmpN))],
       [w EXCEPT !.eqpt = Append(w.eqpt, Row("a", "x", AmpA, AmpN))],
+      \* a row whose Node A and Node Z are the same site names no link either
+      [w EXCEPT !.eqpt = Append(w.eqpt, Row(w.nodes[1].city, w.nodes[1].city, AmpA, AmpC))],
       [w EXCEPT !.eqpt = Append(w.eqpt, Row(w.nodes[1].city, w.nodes[Len(w.nodes)].city, AmpA, AmpN)),
                 !.links = SelectSeq(w.links, LAMBDA l : ~Joins(l, w.nodes[1].city, w.nodes[Len(w.nodes)].city))],
       [w EXCEPT !.eqpt = Append(w.eqpt, e1)]}
@@ -116,7 +118,11 @@ ServiceSheets(mid) ==
    \* the same intermediate site b (an amplifier site in the ring base) crossed in both directions by rows of one sheet
    <<Svc("f", "a", "c", "mode 1", Num(5, -1), B, B, <<>>, <<"b", "c">>, "no", Num(1, -2)),
      Svc("g", "c", "a", "mode 1", Num(5, -1), B, B, <<"f">>, <<"b", "a">>, "no", Num(1, -2)),
-     Svc("h", "a", "c", "", Num(75, 0), B, B, <<>>, <<"b", "c">>, "", Num(1, -2))>>}
+     Svc("h", "a", "c", "", Num(75, 0), B, B, <<>>, <<"b", "c">>, "", Num(1, -2))>>,
+   \* ids are names: a numeric cell, however long (date-based ids), is the row's id digit for digit
+   <<Svc("20240901", "a", "c", "mode 1", Num(5, -1), B, B, <<>>, <<>>, "", Num(1, -2)),
+     Svc("20240902", "c", "a", "mode 1", Num(5, -1), B, B, <<"20240901">>, <<>>, "", Num(1, -2)),
+     Svc("1234567890", "a", mid, "", Num(75, 0), B, B, <<"20240901", "20240902">>, <<>>, "no", Num(2, -2))>>}
 ServiceWorkbooks0 ==
   {Mk(Shapes[s], f, combo, svc) : s \in {2, 4}, f \in {[a |-> "ROADM", b |-> "ROADM", c |-> "ROADM"]},
                                   combo \in {<<0, 0, FALSE>>, <<1, 1, FALSE>>}, svc \in ServiceSheets("b")}
